@@ -20,7 +20,7 @@ PROPS = {
             'ClientTlsConfig::with_enabled_roots starts from a fresh configuration (earlier settings are dropped): every effect of that is a stricter or failing connection, which the property allows; noted in DESIGN.md, not demanded otherwise',
         ]),
     'C20': dict(
-        units=['richerror', 'richbuild', 'status'], level='proof',
+        units=['richerror', 'richbuild', 'status', 'b64cfg'], level='proof',
         witness=[dict(append_to='tonic-types/src/richer_error/mod.rs', module='replay/richerror_witness.rs', crate='tonic-types', filter='verif_witness_richerror')],
         not_covered=[
             'prost: the protobuf encoding of google.rpc.Status / Any / the ten google.rpc detail messages and its decoder are an assumed inverse pair (A-prost-10: decode(encode(m)) == m, nothing else about the wire format); the #[derive(::prost::Message)] on the generated structs is the assumed Message impl (A-prost-13); prost_types::Duration <-> std::time::Duration conversions are assumed for normalised non-negative durations (A-prost-12)',
@@ -41,7 +41,7 @@ PROPS = {
             'Builder::{configure, register_*, include_reflection_service, with_service_name, build_v1, build_v1alpha} ARE under contract (the service is built over an index of every registered set plus, unless switched off, the protocol own descriptors); the text a chosen service name converts to (`impl Into<String>`) is not specified, and the generated ServerReflectionServer::new is assumed to wrap the service it is given (A-refl-codegen-01)',
         ]),
     'C02': dict(
-        units=['encode', 'decode', 'status', 'reqresp', 'metadata', 'clientglue', 'serverglue', 'errmap', 'tbody'], level='proof',
+        units=['encode', 'decode', 'status', 'reqresp', 'metadata', 'clientglue', 'serverglue', 'errmap', 'tbody', 'b64cfg'], level='proof',
         witness=[dict(append_to='tonic/src/status.rs', module='replay/status_witness.rs', crate='tonic', filter='verif_witness_status', features=['--features', 'gzip,deflate,zstd']), dict(append_to='tonic/src/codec/decode.rs', module='replay/decode_witness.rs', crate='tonic', filter='verif_witness_decode', features=['--features', 'gzip,deflate,zstd'])],
         not_covered=[
             'decided here: the hand-off of status / trailers / metadata at both ends (encode, decode, status units) AND the call-shape glue: client Grpc::{prepare_request, create_response, streaming, client_streaming, unary, server_streaming} and server Grpc::{map_request_unary, map_request_streaming, map_response, unary, server_streaming, client_streaming, streaming} as sequential async code (Verus treats .await as a call)',
@@ -105,7 +105,7 @@ PROPS = {
         ]),
     'C12': dict(
         witness=[dict(append_to='tonic/src/service/interceptor.rs', module='replay/interceptor_witness.rs', crate='tonic', filter='verif_witness_interceptor', features=['--features', 'gzip,deflate,zstd']), dict(append_to='tonic/src/status.rs', module='replay/status_witness.rs', crate='tonic', filter='verif_witness_status', features=['--features', 'gzip,deflate,zstd'])],
-        units=['reqresp', 'status'], level='proof',
+        units=['reqresp', 'status', 'b64cfg'], level='proof',
         not_covered=[
             'the Interceptor itself is an arbitrary relation (any function of the request); the inner service is seen through a ghost log of the requests it was called with (A-tower-01)',
             'ResponseBody::{poll_frame,is_end_stream} are under contract (a veto response has no body frames, a forwarded body is forwarded frame by frame); size_hint is not',
@@ -132,7 +132,7 @@ PROPS = {
         ]),
     'C03': dict(
         witness=[dict(append_to='tonic/src/codec/encode.rs', module='replay/encode_witness.rs', crate='tonic', filter='verif_witness_encode', features=['--features', 'gzip,deflate,zstd'])],
-        units=['wire', 'encode', 'status', 'reqresp', 'compression', 'clientglue', 'serverglue', 'prostcodec', 'codecbuf'], level='proof',
+        units=['wire', 'encode', 'status', 'reqresp', 'compression', 'clientglue', 'serverglue', 'prostcodec', 'codecbuf', 'b64cfg'], level='proof',
         not_covered=[
             'the request head (POST, HTTP/2, te, content-type, path under the origin) is proved on the real GrpcConfig::prepare_request (unit clientglue), the response head on the real server Grpc::map_response / Status::into_http (unit serverglue, status); the generated code that picks the path string is not covered',
             'that compress() uses the coder named in grpc-encoding (FFI)', 'HTTP/2 serialisation of heads and trailers (hyper/h2)',
